@@ -1541,7 +1541,8 @@ impl TypeChecker {
 impl TypeChecker {
     /// `script` is an s-expression
     /// `(script (defs (ID (FIELD ty)…)…) (ops op…))` with
-    /// `op ::= (fresh v|i|f) | (freshrec (FIELD ty)…) | (unify ty ty) | (mark ty)`
+    /// `op ::= (fresh v|i|f) | (freshrec (FIELD ty)…) | (unify ty ty) | (unifytop ty ty) | (mark ty)`
+    /// (`unify` drives `unify_inner`, `unifytop` drives `unify(expected, found)`)
     /// and `ty ::= (v N) | (e N) | (iv N 0|1) | (fv N) | (rv N (FIELD ty)…) | unit
     /// | never | (rec (FIELD ty)…) | (fn (ty…) ty) | (n ID ty…)`.
     /// `ID`s 0‥14 are the built-in names `u8 u16 u32 u64 i8 i16 i32 i64 f32 f64
@@ -1616,6 +1617,18 @@ impl TypeChecker {
                                     match tc.unify_inner(&a, &b) {
                                         Some(_) => "ok",
                                         None => "fail",
+                                    }
+                                    .to_string(),
+                                );
+                            }
+                            "unifytop" => {
+                                // `unify(expected, found)` as the checker calls it
+                                let a = ty(&ol[1]);
+                                let b = ty(&ol[2]);
+                                out.push(
+                                    match tc.unify(&a, &b, MetaId(0), None) {
+                                        Ok(_) => "ok",
+                                        Err(_) => "fail",
                                     }
                                     .to_string(),
                                 );
